@@ -1541,8 +1541,8 @@ func checkPopulateWalk(c *Ctx, rule string) {
 	okMiss, okHit := false, false
 	if lookupIf != nil {
 		missBlk, hitBlk := lookupIf.Body, (*ast.BlockStmt)(nil)
-		if eb, ok := lookupIf.Else.(*ast.BlockStmt); ok {
-			hitBlk = eb
+		if rest := elseOrRest(f, lookupIf); rest != nil {
+			hitBlk = &ast.BlockStmt{List: rest}
 		}
 		if roleString(info, lookupIf.Cond, roles) == "found" {
 			missBlk, hitBlk = hitBlk, lookupIf.Body
@@ -1647,11 +1647,26 @@ func checkROErrorCodes(c *Ctx, rule string) {
 					return true
 				}
 				var failBlock *ast.BlockStmt
-				if u, ok := ast.Unparen(ifs.Cond).(*ast.UnaryExpr); ok && u.Op == token.NOT && isVar(info, u.X, fv) {
+				// `!found` alone or as one disjunct of the failing condition (`!found || offset > len(children)`)
+				notFoundIn := func(e ast.Expr) bool {
+					var walk func(x ast.Expr) bool
+					walk = func(x ast.Expr) bool {
+						x = ast.Unparen(x)
+						if u, ok := x.(*ast.UnaryExpr); ok && u.Op == token.NOT && isVar(info, u.X, fv) {
+							return true
+						}
+						if be, ok := x.(*ast.BinaryExpr); ok && be.Op == token.LOR {
+							return walk(be.X) || walk(be.Y)
+						}
+						return false
+					}
+					return walk(e)
+				}
+				if notFoundIn(ifs.Cond) {
 					failBlock = ifs.Body
 				} else if isVar(info, ifs.Cond, fv) {
-					if eb, ok := ifs.Else.(*ast.BlockStmt); ok {
-						failBlock = eb
+					if rest := elseOrRest(f, ifs); rest != nil {
+						failBlock = &ast.BlockStmt{List: rest}
 					}
 				}
 				if failBlock == nil {
